@@ -131,11 +131,11 @@ def ffut(quick):
     small = [('eventually_t', X, 0, 2), ('always_t', X, 1, 2), ('until_t', X, Z, 0, 1), ('next', X)]
     for fu in (small if quick else fut1):
         for sb in sib:
-            for k in ('and', 'or', 'implies', 'sub'):
-                if k == 'sub' and sb[0] not in ('var', 'geq', 'add', 'abs', 'const', 'not'):
+            for k in ('and', 'or', 'implies', 'sub', 'iff', 'xor'):
+                if k in ('sub', 'iff', 'xor') and sb[0] not in ('var', 'geq', 'add', 'abs', 'const', 'not'):
                     continue          # inf - inf: both sides may be infinite, nothing to compare
                 out.append((k, fu, sb))
-                if k in ('implies', 'sub'):
+                if k in ('implies', 'sub', 'iff', 'xor'):
                     out.append((k, sb, fu))
     # future under past / Boolean / arithmetic, past under future
     wrap_un = ['not', 'abs', 'neg', 'once', 'historically', 'prev', 's_prev', 'rise', 'fall', 'next', 's_next']
@@ -217,15 +217,23 @@ def obligations(tier, rng):
               ('next', X), ('once', X), ('historically', X), ('since', X, Z), ('until_t', X, Z, 0, 1), ('rise', X)]
     for oi, o in enumerate(outers):
         for inn in inners:
-            for c in ('and', 'or', 'implies', 'sub'):
+            for c in ('and', 'or', 'implies', 'sub', 'iff'):
                 for left in (True, False):
-                    if quick and (c == 'sub' or (not left and c != 'implies')):
+                    if quick and (c == 'sub' or (not left and c not in ('implies', 'iff'))):
                         continue
                     g = (c, inn, Y) if left else (c, Y, inn)
                     f = o(g)
                     h = hor(f)
                     if h <= 8:
                         out.append(ob('C03', 'delay', 'depth3/%s/N=%d' % (text(f), h + 3), f=f, N=h + 3))
+    # a connective whose OWN horizon comes from one operand, used next to a sibling with a smaller horizon (three levels)
+    for c in ('and', 'or', 'implies', 'iff', 'xor', 'sub', 'geq'):
+        for fu in [('eventually_t', Y, 0, 2), ('next', Y), ('always_t', Y, 1, 2)]:
+            for inner in [(c, X, fu), (c, fu, X)]:
+                for k in ('and', 'or', 'implies', 'until_t'):
+                    for f in ([(k, Z, inner), (k, inner, Z)] if k != 'until_t' else [(k, Z, inner, 0, 1), (k, inner, Z, 0, 1)]):
+                        h = hor(f)
+                        out.append(ob('C03', 'delay', 'sibling3/%s/N=%d' % (text(f), h + 3), f=f, N=h + 3))
     if not quick:
         for i in range(400):
             f = refsem.gen_formula(rng, rng.choice([3, 4]),
